@@ -64,4 +64,15 @@ var metas = map[string]*checkMeta{
 		Faults:      []string{"short_reads", "one_byte_reads", "rule_breaking_trace_kind1", "rule_breaking_trace_kind2", "rule_breaking_trace_kind3", "rule_breaking_trace_kind4"},
 		Probes:      []string{"msgs_started_with_type0", "msgs_started_with_type1", "msgs_started_with_type2", "msgs_started_with_type3", "chunks_with_extended_timestamp", "type3_chunks_with_extended_timestamp", "basic_header_2byte", "basic_header_3byte", "interleaved_chunks"},
 	},
+	"C03": {
+		ID: "C03", Level: "exploration",
+		Phases: []phase{{Name: "packets", Pkg: "checks/c03",
+			Quick: tierCfg{Count: 2500, Budget: 60 * time.Second},
+			Thor:  tierCfg{Count: 250000, Budget: 20 * time.Minute}}},
+		Rule: "plan = per-endpoint sequence of WritePacket ops over every constructible packet (connect/_result, createStream/_result, publish, play, call, closeStream, Set Chunk Size, Window Ack Size, Set Peer Bandwidth, User Control with 1/4/8-byte data; generated AMF0 trees incl. NaN payloads, ECMA and strict arrays; transaction ids from a small colliding pool plus 1000 and 2^38; responses for outstanding, consumed and never-sent ids; optional causal sync ops) or a typed-wait scenario (ExpectPacket/ExpectMessage after control and command traffic), x segmentation x schedule over 4 tasks after the real handshake; 2% of plans sweep all 65536 user-control event types locally. Non-trivial = at least one packet sent. Distinct = distinct plan bodies.",
+		Components: map[string]string{"rtmp.Protocol (WritePacket, ReadMessage, DecodeMessage, ExpectPacket, ExpectMessage), amf0": "real", "transport": "sim duplex", "transaction model": "sequential map tid->request name replayed over the event log (stub)"},
+		Assumptions: append([]string{"createStream and play have no dispatch case in the library and are accepted as the generic *CallPacket (re-marshalling identically)", "a _result decoded while the matching request's WritePacket call is still in progress may be matched or rejected (that window is C04's subject)", "strings are limited to 65535 bytes (AMF0 short string)"}, stdAssume...),
+		Faults:      []string{"short_reads", "one_byte_reads", "split_writes", "blocked_reads"},
+		Probes:      []string{"responses_matched", "responses_without_request", "responses_of_other_kind", "responses_in_registration_window", "typed_packet_waits", "typed_message_waits", "packets_skipped_by_waits", "user_control_event_types_swept", "sync_deadlocks_broken"},
+	},
 }
